@@ -697,8 +697,10 @@ theorem C08_match_outcome {F : FlagTable} (hF : LocallySound F) (P : Program) (i
       parseApi inp.length fullparse r =
         (if fullparse && decide (p' < inp.length) then .partialParse v' p' else .value v') := by
   obtain ⟨r, hg, h1, h2, h3⟩ := gen_refines hF P inp fuel e pos _ h
-  obtain ⟨v', hv'⟩ := finalize_of_spansLe inp.length v (peg_bounded P inp hm fuel e pos v p' h hpos).2
-  exact ⟨r, v', hg, hv', by simp [parseApi, h1, h2, h3, hv']⟩
+  have hb := peg_bounded P inp hm fuel e pos v p' h hpos
+  obtain ⟨v', hv'⟩ := finalize_of_spansLe inp.length v hb.2
+  have hmax : max inp.length p' = inp.length := Nat.max_eq_left hb.1
+  exact ⟨r, v', hg, hv', by simp [parseApi, h1, h2, h3, hmax, hv']⟩
 
 /-- **C08.**  When the entry expression does not match, `parse` raises `ParseError`, at an index
     inside the input (and not before `pos` when the grammar does not use `Backtrack`). -/
